@@ -278,7 +278,9 @@ func runC10(r *vk.Run) {
 			var parts []string
 			level := vk.Pick(rng, []string{"info", "warn", "error"})
 			parts = append(parts, "level="+level, fmt.Sprintf("grp=%d", g))
-			switch rng.Intn(3) {
+			switch rng.Intn(4) {
+			case 3: // names equal up to case, accents or width are different names
+				parts = append(parts, "Host=a", "host=b", "HOST=c", "traceID=1", "TraceId=2", "traceid=3", "é=1", "É=2", "ｋ=1", "k=2")
 			case 0: // wide: far more labels than any "sane" cap
 				for f := 0; f < 36; f++ {
 					parts = append(parts, fmt.Sprintf("f%02d=%d", f, (f*7+g)%5))
@@ -363,6 +365,68 @@ func runC10(r *vk.Run) {
 		c.Nontrivial(fmt.Sprintf("identical|%d", c.Idx))
 	})
 	r.Require("identical_group_checks", 500)
+	// every label of a sample belongs to its identity, the engine's own error labels included: the
+	// per-record label sets are read from the log query, the metric query over the same pipeline must
+	// report exactly one series per distinct set, with its count
+	r.Phase("errorlabels", r.N(100, 5000), func(c *vk.Case) {
+		rng := c.Rng
+		broken := []string{`{"a":1`, `{"a" 1}`, `{"a":1,}`, `not json`, `[1,2]`, `{"a":{"b":`, `{a:1}`, `{"k":oops}`, ``, `{"a":1}{`}
+		var recs []Rec
+		n := rng.Range(4, 20)
+		for i := 0; i < n; i++ {
+			line := vk.Pick(rng, broken)
+			if rng.Chance(1, 4) {
+				line = `{"a":1,"lvl":"` + vk.Pick(rng, []string{"info", "warn"}) + `"}`
+			}
+			recs = append(recs, Rec{TS: metricT0 + 5e8 + int64(i)*1e6, Line: line, Labels: map[string]string{"job": "j"}})
+		}
+		stage := vk.Pick(rng, []string{"| json", "| json a, lvl", "| logfmt", "| unpack"})
+		T := metricT0 + 10e9
+		lres, err := evalQuery(&MemQuerier{Recs: recs, ErrAfter: -1}, `{job="j"} `+stage+` | drop msg`, EvalP{Start: metricT0, End: T, Step: time.Second, Limit: -1})
+		c.Eval(1)
+		if err != nil {
+			c.Fail("", "log query failed: "+err.Error(), map[string]any{"records": recs, "stage": stage})
+			return
+		}
+		want := map[string]int{}
+		for _, st := range lres.Streams {
+			want[labelKey(st.Labels)] += len(st.Entries)
+		}
+		for rep := 0; rep < 3; rep++ {
+			mres, err := evalQuery(&MemQuerier{Recs: recs, ErrAfter: -1}, `count_over_time({job="j"} `+stage+` | drop msg [20s])`, EvalP{Start: T, End: T})
+			c.Eval(1)
+			det := map[string]any{"records": recs, "stage": stage, "label_sets_of_the_log_query": want, "metric_result": mres}
+			if err != nil {
+				c.Fail("", "metric query failed: "+err.Error(), det)
+				return
+			}
+			got := map[string]int{}
+			for _, s := range mres.Series {
+				k := labelKey(s.Labels)
+				if _, dup := got[k]; dup || len(s.Points) != 1 {
+					c.Fail("", "label set "+k+" reported twice", det)
+					return
+				}
+				got[k] = int(s.Points[0].V)
+			}
+			if len(got) != len(want) {
+				c.Fail("", fmt.Sprintf("count_over_time(... %s | drop msg ...): %d series, the records carry %d distinct label sets", stage, len(got), len(want)), det)
+				return
+			}
+			for k, w := range want {
+				if got[k] != w {
+					c.Fail("", fmt.Sprintf("count_over_time(... %s ...): label set %s counts %d, %d records carry it", stage, k, got[k], w), det)
+					return
+				}
+			}
+			c.Count("error_label_identity_checks", 1)
+		}
+		if len(want) >= 2 {
+			c.Nontrivial(fmt.Sprintf("errorlabels|%d", c.Idx))
+		}
+	})
+	r.Require("error_label_identity_checks", 200)
+
 	r.Require("repetitions", 3000)
 	r.Require("conservation_checks", 1000)
 	r.Require("distinct_nontrivial", 100)
